@@ -66,6 +66,17 @@ def gen_frame(rng, task):
         else:
             v = [rng.choice(["u", "v", "w", "x"]) for _ in range(n)]
         cols[f"k{i}"] = v
+    if task == "classification" and rng.random() < 0.15:
+        # infinite values carrying part of the association (a capped / overflowed feature): meaningful for the rank-based
+        # measure and filter only, so `gen_config` keeps those when a column holds one
+        name = rng.choice([c for c in cols if c.startswith("q")])
+        v = np.array(cols[name], dtype=float)
+        order = np.argsort(np.nan_to_num(v, nan=-1e18))
+        sign = rng.choice([1.0, -1.0])
+        for j in (order[-max(2, n // 12):] if sign > 0 else order[:max(2, n // 12)]):
+            if not np.isnan(v[j]):
+                v[j] = sign * np.inf
+        cols[name] = list(v)
     X = pd.DataFrame(cols)
     ys = pd.Series(y if task == "regression" else y.astype(int), index=X.index, name="target")
     quant = [c for c in X.columns if c.startswith("q")]
@@ -73,7 +84,7 @@ def gen_frame(rng, task):
     return X, ys, quant, qual
 
 
-def gen_config(rng, task, quant, qual):
+def gen_config(rng, task, quant, qual, has_inf=False):
     from AutoCarver.selectors import (kruskal_measure, R_measure, tschuprowt_measure, cramerv_measure,
                                       spearman_filter, pearson_filter, tschuprowt_filter, cramerv_filter,
                                       zscore_measure, iqr_measure)
@@ -100,6 +111,10 @@ def gen_config(rng, task, quant, qual):
         kw["quantitative_filters"] = [pearson_filter]; names["quant_filter"] = "pearson"
     if rng.random() < 0.4:
         kw["qualitative_filters"] = [cramerv_filter]; names["qual_filter"] = "cramerv"
+    if has_inf and task == "classification":
+        # only the rank-based measure and filter are meaningful on infinite values
+        kw.pop("quantitative_measures", None); kw.pop("quantitative_filters", None)
+        names["quant_measure"] = "kruskal_measure"; names["quant_filter"] = "spearman"; names.pop("outlier_measures", None)
     cfg["kw"] = kw
     cfg["names"] = names
     return cfg
@@ -215,7 +230,8 @@ def measure(name, x, y):
 def pair_assoc(kind, a, b):
     """|pearson| / |spearman| on pairwise complete rows, or tschuprowt / cramerv between two qualitative columns"""
     if kind in ("pearson", "spearman"):
-        keep = [i for i in range(len(a)) if not (math.isnan(a[i]) or math.isnan(b[i]))]
+        # pandas' corr works on the pairwise *finite* rows (infinite values are masked like missing ones)
+        keep = [i for i in range(len(a)) if math.isfinite(a[i]) and math.isfinite(b[i])]
         xa, xb = np.array([a[i] for i in keep]), np.array([b[i] for i in keep])
         if kind == "spearman":
             xa, xb = avg_ranks(xa), avg_ranks(xb)
